@@ -594,18 +594,20 @@ func (p *Parser) term0Atom(maxPriority Integer) (Term, error) {
 		return nil, errExpectation
 	}
 
-	if p.placeholder != 0 && t == p.placeholder && !quoted {
-		if len(p.args) == 0 {
-			return nil, errPlaceholder
-		}
-		var a reflect.Value
-		a, p.args = p.args[0], p.args[1:]
-		if t, err = p.termOf(a); err != nil {
-			return nil, err
-		}
-	}
+	return p.substitute(t, quoted)
+}
 
-	return t, nil
+// substitute replaces an unquoted occurrence of the placeholder with the next argument.
+func (p *Parser) substitute(t Term, quoted bool) (Term, error) {
+	if p.placeholder == 0 || t != p.placeholder || quoted {
+		return t, nil
+	}
+	if len(p.args) == 0 {
+		return nil, errPlaceholder
+	}
+	var a reflect.Value
+	a, p.args = p.args[0], p.args[1:]
+	return p.termOf(a)
 }
 
 func (p *Parser) variable(s string) (Term, error) {
@@ -787,11 +789,14 @@ func (p *Parser) functionalNotation(functor Atom) (Term, error) {
 func (p *Parser) arg() (Term, error) {
 	if arg, err := p.atom(); err == nil {
 		if p.operators.defined(arg) {
+			p.backup()
+			quoted := p.current().kind == tokenQuoted
+			_, _ = p.next()
 			// Check if this atom is not followed by its own arguments.
 			switch t, _ := p.next(); t.kind {
 			case tokenComma, tokenClose, tokenBar, tokenCloseList:
 				p.backup()
-				return arg, nil
+				return p.substitute(arg, quoted) // The placeholder stays one when it's declared as an operator.
 			default:
 				p.backup()
 			}
